@@ -127,6 +127,36 @@ func shapes() []shape {
 			m["index_name"] = "nsB"
 			return srvx.JSON(m), true
 		}},
+		// a body naming two different indexes (source / target) next to an index_name the caller is
+		// entitled to: own -> foreign writes into the other namespace, foreign -> own reads from it
+		{"two-indexes-own-then-foreign", func(t srvx.Template) (string, bool) {
+			n := 0
+			for _, f := range t.Fields {
+				if f.Name != "index_name" && srvx.IsIndexField(f.Name) && f.Type == "string" {
+					n++
+				}
+			}
+			if n < 2 {
+				return "", false
+			}
+			m := t.Body(srvx.Values{Index: "nsA", OtherIndex: "nsA", OtherIndex2: "nsB", ID: "v0", Key: "kvkey"})
+			m["index_name"] = "nsA"
+			return srvx.JSON(m), true
+		}},
+		{"two-indexes-foreign-then-own", func(t srvx.Template) (string, bool) {
+			n := 0
+			for _, f := range t.Fields {
+				if f.Name != "index_name" && srvx.IsIndexField(f.Name) && f.Type == "string" {
+					n++
+				}
+			}
+			if n < 2 {
+				return "", false
+			}
+			m := t.Body(srvx.Values{Index: "nsA", OtherIndex: "nsB", OtherIndex2: "nsA", ID: "v0", Key: "kvkey"})
+			m["index_name"] = "nsA"
+			return srvx.JSON(m), true
+		}},
 		{"case-variant-key", func(t srvx.Template) (string, bool) {
 			m := t.Body(srvx.Values{Index: "nsB", OtherIndex: "nsB", ID: "v0", Key: "kvkey"})
 			if _, ok := m["index_name"]; !ok {
@@ -177,6 +207,18 @@ func matrix(c *vk.Ctx) {
 		}
 	}
 	v.Tokens["garbage"] = "not.a.token"
+	// a revoked token: its denylist entry and the signing key live in the key-value store under
+	// reserved names; the key-value routes are probed with those names too
+	kvKeys := append([]string(nil), srvx.KVKeys...)
+	if err := v.Issue("victim", "write", []string{"*"}); err == nil {
+		v.Do("DELETE", "/auth/keys/"+v.Jtis["victim"], srvx.Root, nil, 3*time.Second)
+		for _, k := range v.E.DB.GetKVStore().Keys() {
+			if strings.HasPrefix(k, "_sys_auth::") {
+				kvKeys = append(kvKeys, k)
+			}
+		}
+	}
+	c.F.Extra["kv_keys_probed"] = len(kvKeys)
 	shp := shapes()
 	var n int64
 	var slowest int64
@@ -194,7 +236,7 @@ func matrix(c *vk.Ctx) {
 		seen := map[string]bool{}
 		for _, name := range srvx.Indexes {
 			for _, id := range []string{"v0", "get-vectors"} {
-				for _, key := range srvx.KVKeys {
+				for _, key := range kvKeys {
 					p := expand(rt.Path, name, id, key)
 					if !seen[p] {
 						seen[p] = true
@@ -272,6 +314,18 @@ func matrix(c *vk.Ctx) {
 						if dbg := os.Getenv("VERIF_DEBUG_PATH"); dbg != "" && strings.Contains(path, dbg) && strings.Contains(body, "delete_threshold") {
 							fmt.Printf("DEBUG %s %s principal=%s body=%s -> %d %s changed=%v\n", method, path, p.name, trunc(body, 80), w.Code, trunc(w.Body.String(), 80), changed)
 						}
+						// authentication state is administration: only the master token may change it,
+						// and nobody below it is shown the signing key
+						if before["#auth"] != after["#auth"] {
+							rep("auth-state-changed-without-admin-role", "signing key / revocation list / policies changed")
+							if w2 := v.Do("GET", "/vector/indexes", v.Tokens["victim"], nil, 3*time.Second); w2.Code != 401 && v.Tokens["victim"] != "" {
+								rep("revoked-token-accepted-again", fmt.Sprintf("the revoked token is answered %d after this request", w2.Code))
+								v.Do("DELETE", "/auth/keys/"+v.Jtis["victim"], srvx.Root, nil, 3*time.Second)
+							}
+						}
+						if strings.HasPrefix(path, "/kv/_sys_auth::") && w.Code >= 200 && w.Code < 300 {
+							rep("reserved-auth-key-served", fmt.Sprintf("status %d on a key that holds authentication state", w.Code))
+						}
 						switch {
 						case p.role == "":
 							if w.Code != 401 && path != "/healthz" && path != "/.well-known/jwks.json" {
@@ -313,6 +367,11 @@ func matrix(c *vk.Ctx) {
 							bs := w.Body.String()
 							if strings.Contains(bs, "SENT-nsB") || strings.Contains(bs, "SENT-x-search") {
 								rep("namespaced-token-read-another-index", "response carries another index's data")
+							}
+							// ... or had it copied into its own index, where it can read it at leisure
+							if own := after["ix:nsA"]; own != before["ix:nsA"] && (strings.Contains(own, "SENT-nsB") || strings.Contains(own, "SENT-x-search")) {
+								rep("namespaced-token-read-another-index", "another index's data was copied into the caller's index")
+								v.Reset()
 							}
 						}
 					}
